@@ -2027,6 +2027,44 @@ func (c *compiler) evaluateAssignableOrReference(ass ast.Assigneable, as_ref boo
 	return nil, nil, nil
 }
 
+// returns the variable an assignable expression is (a part of), nil for anything else
+func rootVarDecl(expr ast.Expression) *ast.VarDecl {
+	for {
+		switch e := expr.(type) {
+		case *ast.Grouping:
+			expr = e.Expr
+		case *ast.Ident:
+			decl, _ := e.Declaration.(*ast.VarDecl)
+			return decl
+		case *ast.Indexing:
+			expr = e.Lhs
+		case *ast.FieldAccess:
+			expr = e.Rhs
+		case *ast.CastAssigneable:
+			expr = e.Lhs
+		default:
+			return nil
+		}
+	}
+}
+
+// reports whether the storage of arg itself may be handed to a parameter the callee only reads:
+// arg must be (part of) a local variable that nothing else can reach while the callee runs,
+// so not a global, not a reference parameter of the current function
+// and not (part of) a variable that is also passed by reference in the same call
+func (c *compiler) mayElideArgCopy(call *ast.FuncCall, arg ast.Expression) bool {
+	root := rootVarDecl(arg)
+	if root == nil || root.IsGlobal || c.scp.lookupVar(root).isRef {
+		return false
+	}
+	for _, param := range call.Func.Parameters {
+		if param.Type.IsReference && rootVarDecl(call.Args[param.Name.Literal]) == root {
+			return false
+		}
+	}
+	return true
+}
+
 func (c *compiler) VisitFuncCall(e *ast.FuncCall) ast.VisitResult {
 	mangledName := c.mangledNameDecl(e.Func)
 	_, alreadyPresent := c.functions[mangledName] // retreive the function (the resolver took care that it is present)
@@ -2071,10 +2109,19 @@ func (c *compiler) VisitFuncCall(e *ast.FuncCall) ast.VisitResult {
 				c.err("non-assignable passed as reference to %s", fun.funcDecl.Name())
 			}
 		} else {
-			eval, valTyp, isTemp := c.evaluate(e.Args[param.Name.Literal]) // compile each argument for the function
-			if valTyp.IsPrimitive() ||
-				(!ast.IsExternFunc(fun.funcDecl) && c.optimizationLevel >= 2 && meta.IsConst[param.Name.Literal]) {
+			arg := e.Args[param.Name.Literal]
+			eval, valTyp, isTemp := c.evaluate(arg) // compile each argument for the function
+			// the callee only reads this parameter (and does not free it, see exitFuncScope)
+			constParam := !valTyp.IsPrimitive() && !ast.IsExternFunc(fun.funcDecl) &&
+				c.optimizationLevel >= 2 && meta.IsConst[param.Name.Literal]
+			if valTyp.IsPrimitive() || (constParam && (isTemp || c.mayElideArgCopy(e, arg))) {
 				val = eval
+			} else if constParam {
+				// the argument may be changed while the callee runs (a global, a reference,
+				// a variable that is also passed by reference): the callee gets a copy,
+				// which stays a temporary of the caller because the callee will not free it
+				dest := c.NewAlloca(valTyp.IrType())
+				val, _ = c.scp.addTemporary(c.deepCopyInto(dest, eval, valTyp), valTyp)
 			} else { // function parameters need to be copied by the caller
 				dest := c.NewAlloca(valTyp.IrType())
 				c.claimOrCopy(dest, eval, valTyp, isTemp)
